@@ -309,6 +309,10 @@ fn driver_lanes(ctx: &Ctx) {
 }
 
 pub fn miri_run(ctx: &Ctx, mode: &str, seed: u64, timeout_s: u64) -> Option<crate::cli::Output> {
+    miri_run_flags(ctx, mode, seed, timeout_s, "")
+}
+
+pub fn miri_run_flags(ctx: &Ctx, mode: &str, seed: u64, timeout_s: u64, extra_flags: &str) -> Option<crate::cli::Output> {
     let manifest = format!("{}/harness/miri/Cargo.toml", verif_root());
     let home = std::env::var("HOME").unwrap_or_else(|_| "/root".into());
     let path = std::env::var("PATH").unwrap_or_else(|_| "/usr/bin:/bin".into());
@@ -319,7 +323,7 @@ pub fn miri_run(ctx: &Ctx, mode: &str, seed: u64, timeout_s: u64) -> Option<crat
         .env("PATH", &path)
         .env("CARGO_NET_OFFLINE", "true")
         .env("CARGO_TERM_COLOR", "never")
-        .env("MIRIFLAGS", "-Zmiri-disable-isolation");
+        .env("MIRIFLAGS", &format!("-Zmiri-disable-isolation {}", extra_flags));
     for k in ["RUSTUP_HOME", "CARGO_HOME"] {
         if let Ok(v) = std::env::var(k) {
             cmd = cmd.env(k, &v);
@@ -370,6 +374,10 @@ pub fn judge_miri(ctx: &Ctx, prop: &str, mode: &str, o: &crate::cli::Output) -> 
             "other"
         };
         ctx.violation(&format!("{}:miri:{}:undefined-behavior:{}", prop, mode, kind), case());
+        return false;
+    }
+    if let Some(l) = out.lines().find(|l| l.starts_with("KMIRI-INCONCLUSIVE")) {
+        ctx.inconclusive(&format!("miri {}: {}", mode, l.trim()));
         return false;
     }
     if let Some(l) = out.lines().find(|l| l.starts_with("KMIRI-FAIL")) {
